@@ -76,6 +76,9 @@ DestinationType = tuple[str, int] | tuple[str, int, dict[str, Any]]
 
 LOGGER = logging.getLogger(__name__)
 
+# Repository Query SOP Class - its 0xB001 Warning status is not a final response
+_REPOSITORY_QUERY = "1.2.840.10008.5.1.4.1.1.201.6"
+
 
 class attempt:
     """Context manager for sending replies when an exception is raised.
@@ -356,7 +359,15 @@ class ServiceClass:
                     f"(Warning - {status[1]})"
                 )
                 self.dimse.send_msg(rsp, cx_id)
-                continue
+                # PS3.4, Annex C.6.4.4: for Repository Query 0xB001 only conveys
+                #   the end of the Pending responses, otherwise Warning is final
+                if (
+                    req.AffectedSOPClassUID == _REPOSITORY_QUERY
+                    and rsp.Status == 0xB001
+                ):
+                    continue
+
+                return
 
             if status[0] == STATUS_PENDING:
                 # If pending, `dataset` is the Identifier
